@@ -151,6 +151,7 @@ func (a *typedArshalers[Coder]) lookup(fnc func(*Coder, addressableValue, *jsono
 		return fncDefault(c, v, o)
 	}
 
+	verifPoint(1)
 	// Use the first stored so duplicate work can be garbage collected.
 	v, _ := a.fncCache.LoadOrStore(t, fnc)
 	return v.(func(*Coder, addressableValue, *jsonopts.Struct) error), true
